@@ -14,8 +14,8 @@ import (
 
 var rules = []*Rule{
 	{ID: "R1", Title: "MUST-FSYNC: durable before acknowledged", Props: []string{"C06", "C05", "C08", "C11", "C17"}, Run: ruleR1},
-	{ID: "R2", Title: "FS-ORDER: multi-step file protocols keep a recoverable order", Props: []string{"C05", "C11", "C02", "C01", "C17", "C12", "C07"}, Run: func(p *Prog) []Ob {
-		return append(append(append(append(ruleR2(p), p.overrideTargetObligations()...), p.removeRemovesLog()), p.atomicReplace()...), append(append(append(p.recoverReplaces(), p.recoverBeforeMigrate()...), p.whoMayRemoveSegment()...), p.migrateBeforeOpen()...)...)
+	{ID: "R2", Title: "FS-ORDER: multi-step file protocols keep a recoverable order", Props: []string{"C05", "C11", "C02", "C01", "C17", "C12", "C07", "C06"}, Run: func(p *Prog) []Ob {
+		return append(append(append(append(ruleR2(p), p.overrideTargetObligations()...), p.removeRemovesLog()), p.atomicReplace()...), append(append(append(p.recoverReplaces(), append(p.recoverBeforeMigrate(), p.recoverOnOpen()...)...), p.whoMayRemoveSegment()...), p.migrateBeforeOpen()...)...)
 	}},
 	{ID: "R3", Title: "LOCKSET: every shared mutable field has a common guard", Props: []string{"C08", "C09", "C03", "C04", "C02", "C12"}, Run: func(p *Prog) []Ob {
 		return append(append(append(ruleR3(p), ruleR3c(p)...), p.publishOrder()...), p.headIsLast()...)
